@@ -398,7 +398,83 @@ func (g *gen) add(o DBOp) { g.ops = append(g.ops, o) }
 func (g *gen) newID() int { g.nextID++; return g.nextID }
 
 // dbProfiles lists the profiles of the whole-DB engine.
-var dbProfiles = map[string]bool{"latest": true}
+var dbProfiles = map[string]bool{"latest": true, "crash": true, "crash-sync": true, "flushdur": true}
+
+// forkPolicy returns how crash forks are taken for a profile and tier.
+func forkPolicy(profile, tier string) (mode string, n int) {
+	switch profile {
+	case "crash", "crash-sync", "flushdur":
+		if tier == "thorough" {
+			return "all", 0
+		}
+		return "sample", 16
+	}
+	return "", 0
+}
+
+func (g *gen) survival() *simfs.Survival {
+	switch g.r.IntN(6) {
+	case 0, 1:
+		return &simfs.Survival{Mode: "none"}
+	case 2:
+		return &simfs.Survival{Mode: "all"}
+	case 3:
+		return &simfs.Survival{Mode: "prefix", Pct: 50, Seed: g.r.Next()}
+	}
+	return &simfs.Survival{Mode: "pct", Pct: []int{10, 30, 50, 80}[g.r.IntN(4)], Seed: g.r.Next()}
+}
+
+// genCrash: C10/C11/C12 — writes with mixed sync modes, flushes, compactions,
+// ingests, excises, and main-line crashes armed a few disk mutations ahead.
+func (g *gen) genCrash(nops int, profile string) {
+	rangeKeys := g.r.IntN(2) == 0
+	wIngest := g.r.IntN(2) == 0
+	ncrash := 0
+	for i := 0; i < nops; i++ {
+		x := g.r.IntN(100)
+		switch {
+		case x < 62:
+			o := g.writeOp(rangeKeys)
+			if profile == "crash-sync" {
+				o.Sync = g.r.IntN(2) == 0
+			}
+			if profile == "flushdur" {
+				o.Sync = false
+				if o.Mode == "nosyncwait" {
+					o.Mode = "commit"
+				}
+			}
+			g.add(o)
+		case x < 67 && wIngest:
+			g.add(g.ingestOp(rangeKeys, false))
+		case x < 69 && wIngest:
+			g.add(g.ingestOp(rangeKeys, true))
+		case x < 72 && wIngest:
+			a, b := g.prefixSpan()
+			g.add(DBOp{K: "excise", Key: a, End: b})
+		case x < 82:
+			g.add(DBOp{K: "flush"})
+		case x < 86:
+			a, b := g.span()
+			g.add(DBOp{K: "compact", Key: a, End: b})
+		case x < 89:
+			g.add(DBOp{K: "reopen"})
+		case x < 95 && ncrash < 4:
+			ncrash++
+			o := DBOp{K: "crashat", N: g.r.IntN(40), Surv: g.survival()}
+			if g.r.IntN(4) == 0 {
+				o.M = 1 + g.r.IntN(30) // crash again during recovery
+			}
+			g.add(o)
+		case x < 97 && ncrash < 4:
+			ncrash++
+			g.add(DBOp{K: "crashnow", Surv: g.survival()})
+		default:
+			g.add(DBOp{K: "scan"})
+		}
+	}
+	g.add(DBOp{K: "scan"})
+}
 
 func (e *dbEngine) Generate(profile string, seed uint64, tier string) (*Plan, error) {
 	if !dbProfiles[profile] {
@@ -420,6 +496,15 @@ func (e *dbEngine) Generate(profile string, seed uint64, tier string) (*Plan, er
 	switch profile {
 	case "latest":
 		g.genLatest(nops)
+	case "crash", "crash-sync", "flushdur":
+		if profile == "flushdur" && g.r.IntN(2) == 0 {
+			g.cfg.DisableWAL = true
+		}
+		n := 15 + g.r.IntN(60)
+		if tier == "thorough" {
+			n = 10 + g.r.IntN(40)
+		}
+		g.genCrash(n, profile)
 	}
 	p := &Plan{Engine: "dbsim", Profile: profile, Seed: seed, Tier: tier}
 	p.Sched = genSched(&g.r, false)
